@@ -37,10 +37,10 @@ theorem warpOnX_toX (pow : α → α → α) (G : Geom α) (big : α) (fast : Bo
   rw [p2weightX_toX, warpOn_eq_warpW]
   rfl
 
-/-- **on the arguments of `Model/DTWTable.lean` the front end `matchCallX` that the driver runs is `matchCall`** -/
-theorem matchCallX_toX (pow : α → α → α) (G : Geom α) (big : α) (mode : Nat) (p : PArg) (dim : DimArg α) (a : TrackObj α)
-    (t2 : List (Pt α)) : matchCallX pow G big mode p.toX dim a t2 = matchCall G big mode p dim a t2 := by
-  unfold matchCallX matchCall
+/-- on the arguments of `Model/DTWTable.lean` `matchBodyX` is `matchBody` -/
+theorem matchBodyX_toX (pow : α → α → α) (G : Geom α) (big : α) (mode : Nat) (p : PArg) (dim : DimArg α) (a : TrackObj α)
+    (t2 : List (Pt α)) : matchBodyX pow G big mode p.toX dim a t2 = matchBody G big mode p dim a t2 := by
+  unfold matchBodyX matchBody
   simp only [warpOnX_toX]
 
 theorem warpCompareX_toX (pow : α → α → α) (G : Geom α) (root : Nat → α → α) (ofNat : Nat → α) (big : α) (fast : Bool) (p : PArg)
@@ -63,12 +63,29 @@ theorem warpCompareX_toX (pow : α → α → α) (G : Geom α) (root : Nat → 
       | inf => simp
       | nat k => cases k <;> simp
 
+/-- … and `compareBodyX` is `compareBody` -/
+theorem compareBodyX_toX (pow : α → α → α) (G : Geom α) (root : Nat → α → α) (ofNat : Nat → α) (big : α) (mode : Nat) (p : PArg)
+    (dim : DimArg α) (a : TrackObj α) (t2 : List (Pt α)) :
+    compareBodyX pow G root ofNat big mode p.toX dim a t2 = compareBody G root ofNat big mode p dim a t2 := by
+  unfold compareBodyX compareBody
+  simp only [warpCompareX_toX]
+
+omit [Add α] [Sub α] [Mul α] [Div α] [Neg α] [LT α] [LE α] [DecidableLT α] [DecidableLE α] [OfNat α 0] [OfNat α 1] [OfScientific α] in
+/-- `_exponent` on an embedded argument is the embedded `_exponent` -/
+theorem PArg.toX_exponent (p : PArg) : (p.toX (α := α)).exponent = p.exponent.toX := rfl
+
+/-- **on the arguments of `Model/DTWTable.lean` the front end `matchCallX` that the driver runs is `matchCall`** -/
+theorem matchCallX_toX (pow : α → α → α) (G : Geom α) (big : α) (mode : Nat) (p : PArg) (dim : DimArg α) (a : TrackObj α)
+    (t2 : List (Pt α)) : matchCallX pow G big mode p.toX dim a t2 = matchCall G big mode p dim a t2 := by
+  unfold matchCallX matchCall
+  rw [PArg.toX_exponent, matchBodyX_toX]
+
 /-- **… and `compareCallX` is `compareCall`** -/
 theorem compareCallX_toX (pow : α → α → α) (G : Geom α) (root : Nat → α → α) (ofNat : Nat → α) (big : α) (mode : Nat) (p : PArg)
     (dim : DimArg α) (a : TrackObj α) (t2 : List (Pt α)) :
     compareCallX pow G root ofNat big mode p.toX dim a t2 = compareCall G root ofNat big mode p dim a t2 := by
   unfold compareCallX compareCall
-  simp only [warpCompareX_toX]
+  rw [PArg.toX_exponent, compareBodyX_toX]
 
 /-- **… and a session `runSeqX` is `runSeq`** -/
 theorem runSeqX_toX (pow : α → α → α) (G : Geom α) (root : Nat → α → α) (ofNat : Nat → α) (big : α) :
@@ -164,10 +181,10 @@ theorem warpOnX_history (pow : α → α → α) (G : Geom α) (big : α) (p : P
   | error e => rfl
   | ok w => exact warpW_history G big w dim t1 t2 rows0 hl h1 h2
 
-theorem matchCallX_history (pow : α → α → α) (G : Geom α) (big : α) (mode : Nat) (hm : mode ≠ 3) (p : PArgX α) (dim : DimArg α)
+theorem matchBodyX_history (pow : α → α → α) (G : Geom α) (big : α) (mode : Nat) (hm : mode ≠ 3) (p : PArgX α) (dim : DimArg α)
     (t1 t2 : List (Pt α)) (rows0 : List (Row α)) (hl : rows0.length = t1.length) (h1 : 0 < t1.length) (h2 : 0 < t2.length) :
-    matchCallX pow G big mode p dim { pts := t1, rows := rows0 } t2 = matchCallX pow G big mode p dim (TrackObj.fresh t1) t2 := by
-  unfold matchCallX
+    matchBodyX pow G big mode p dim { pts := t1, rows := rows0 } t2 = matchBodyX pow G big mode p dim (TrackObj.fresh t1) t2 := by
+  unfold matchBodyX
   by_cases m1 : mode = 1
   · simp [m1]
   · by_cases m4 : mode = 4
@@ -178,12 +195,12 @@ theorem matchCallX_history (pow : α → α → α) (G : Geom α) (big : α) (mo
         exact warpOnX_history pow G big _ dim t1 t2 rows0 hl h1 h2
       · simp [m1, m4, m2, hm]
 
-theorem compareCallX_history (pow : α → α → α) (G : Geom α) (root : Nat → α → α) (ofNat : Nat → α) (big : α) (mode : Nat)
+theorem compareBodyX_history (pow : α → α → α) (G : Geom α) (root : Nat → α → α) (ofNat : Nat → α) (big : α) (mode : Nat)
     (hm : mode ≠ 107) (p : PArgX α) (dim : DimArg α) (t1 t2 : List (Pt α)) (rows0 : List (Row α)) (hl : rows0.length = t1.length)
     (h1 : 0 < t1.length) (h2 : 0 < t2.length) :
-    compareCallX pow G root ofNat big mode p dim { pts := t1, rows := rows0 } t2
-      = compareCallX pow G root ofNat big mode p dim (TrackObj.fresh t1) t2 := by
-  unfold compareCallX
+    compareBodyX pow G root ofNat big mode p dim { pts := t1, rows := rows0 } t2
+      = compareBodyX pow G root ofNat big mode p dim (TrackObj.fresh t1) t2 := by
+  unfold compareBodyX
   split
   · rfl
   · by_cases m8 : mode = 108
@@ -218,10 +235,10 @@ theorem warpOnX_rows_length (pow : α → α → α) (G : Geom α) (big : α) (p
       cases h
       exact hlen
 
-theorem matchCallX_rows_length (pow : α → α → α) (G : Geom α) (big : α) (mode : Nat) (hm : mode ≠ 3) (p : PArgX α)
+theorem matchBodyX_rows_length (pow : α → α → α) (G : Geom α) (big : α) (mode : Nat) (hm : mode ≠ 3) (p : PArgX α)
     (dim : DimArg α) (t1 t2 : List (Pt α)) (h1 : 0 < t1.length) (h2 : 0 < t2.length) (o : Out α)
-    (h : matchCallX pow G big mode p dim (TrackObj.fresh t1) t2 = .ok o) : o.rows.length = t1.length := by
-  unfold matchCallX at h
+    (h : matchBodyX pow G big mode p dim (TrackObj.fresh t1) t2 = .ok o) : o.rows.length = t1.length := by
+  unfold matchBodyX at h
   by_cases m1 : mode = 1
   · simp [m1] at h
   · by_cases m4 : mode = 4
@@ -231,6 +248,44 @@ theorem matchCallX_rows_length (pow : α → α → α) (G : Geom α) (big : α)
       · simp only [m1, m4, m2, if_true, if_false] at h
         exact warpOnX_rows_length pow G big _ dim t1 t2 h1 h2 o h
       · simp [m1, m4, m2, hm] at h
+
+/-! the same of `matchCallX` / `compareCallX` (`p = _exponent(p)` first) -/
+
+theorem matchCallX_history (pow : α → α → α) (G : Geom α) (big : α) (mode : Nat) (hm : mode ≠ 3) (p : PArgX α) (dim : DimArg α)
+    (t1 t2 : List (Pt α)) (rows0 : List (Row α)) (hl : rows0.length = t1.length) (h1 : 0 < t1.length) (h2 : 0 < t2.length) :
+    matchCallX pow G big mode p dim { pts := t1, rows := rows0 } t2 = matchCallX pow G big mode p dim (TrackObj.fresh t1) t2 :=
+  matchBodyX_history pow G big mode hm p.exponent dim t1 t2 rows0 hl h1 h2
+
+theorem compareCallX_history (pow : α → α → α) (G : Geom α) (root : Nat → α → α) (ofNat : Nat → α) (big : α) (mode : Nat)
+    (hm : mode ≠ 107) (p : PArgX α) (dim : DimArg α) (t1 t2 : List (Pt α)) (rows0 : List (Row α)) (hl : rows0.length = t1.length)
+    (h1 : 0 < t1.length) (h2 : 0 < t2.length) :
+    compareCallX pow G root ofNat big mode p dim { pts := t1, rows := rows0 } t2
+      = compareCallX pow G root ofNat big mode p dim (TrackObj.fresh t1) t2 :=
+  compareBodyX_history pow G root ofNat big mode hm p.exponent dim t1 t2 rows0 hl h1 h2
+
+theorem matchCallX_rows_length (pow : α → α → α) (G : Geom α) (big : α) (mode : Nat) (hm : mode ≠ 3) (p : PArgX α)
+    (dim : DimArg α) (t1 t2 : List (Pt α)) (h1 : 0 < t1.length) (h2 : 0 < t2.length) (o : Out α)
+    (h : matchCallX pow G big mode p dim (TrackObj.fresh t1) t2 = .ok o) : o.rows.length = t1.length :=
+  matchBodyX_rows_length pow G big mode hm p.exponent dim t1 t2 h1 h2 o h
+
+omit [Add α] [Sub α] [Mul α] [Div α] [Neg α] [LinearOrder α] [OfNat α 0] [OfNat α 1] [OfScientific α] in
+/-- `_exponent(p)` of a numpy floating / integer scalar: a Python number of the same value -/
+theorem PArgX.exponent_numpy (p : PArgX α) (h : p.isNumpy = true) :
+    p.exponent.isFn = false ∧ p.exponent.isNum = true ∧ p.exponent.val = p.val ∧ p.exponent.fnw = p.fnw :=
+  ⟨(exponentTy_numpy p.tyname h).1, (exponentTy_numpy p.tyname h).2, rfl, rfl⟩
+
+omit [Add α] [Sub α] [Mul α] [Div α] [Neg α] [LinearOrder α] [OfNat α 0] [OfNat α 1] [OfScientific α] in
+theorem PArgX.exponent_other (p : PArgX α) (h : p.isNumpy = false) : p.exponent = p := by
+  obtain ⟨ty, v, f⟩ := p
+  simp only [PArgX.exponent]
+  rw [exponentTy_other ty h]
+
+omit [Add α] [Sub α] [Mul α] [Div α] [Neg α] [LinearOrder α] [OfNat α 0] [OfNat α 1] [OfScientific α] in
+/-- `_exponent` does not change whether `p` is a callable -/
+theorem PArgX.exponent_isFn (p : PArgX α) : p.exponent.isFn = p.isFn := by
+  cases h : p.isNumpy with
+  | false => rw [PArgX.exponent_other p h]
+  | true => rw [(PArgX.exponent_numpy p h).1]; exact (isNumpy_not_fn p.tyname h).symm
 
 end historyX
 
